@@ -361,6 +361,7 @@ enum MapOp<P> {
     Retain(Pred<P>, Option<usize>),
     Clear,
     Collect(Vec<u64>),
+    FromList(Vec<(P, i64)>),
     Clone,
     Save,
     Eq,
@@ -401,6 +402,7 @@ enum Op<P> {
     SRetain(Pred<P>),
     SEq,
     SObs,
+    SFromList(Vec<P>),
     SShape,
     SViewAt(P),
     SQ(P),
@@ -604,6 +606,19 @@ fn p_collect_list(s: &str) -> Option<Vec<u64>> {
     s.split(',').map(p_u64).collect()
 }
 
+/// `p=v,p=v,...` (or `-` for the empty list)
+fn p_pair_list<P: Prefix>(s: &str) -> Option<Vec<(P, i64)>> {
+    if s == "-" {
+        return Some(Vec::new());
+    }
+    s.split(',')
+        .map(|it| {
+            let (p, v) = it.split_once('=')?;
+            Some((p_prefix(p)?, v.parse::<i64>().ok()?))
+        })
+        .collect()
+}
+
 /// Parse one op line. `None` means "print `?`". All prefixes of the line are constructed here,
 /// from left to right.
 fn parse_op<P: Prefix>(t: &[&str]) -> Option<Op<P>> {
@@ -622,6 +637,7 @@ fn parse_op<P: Prefix>(t: &[&str]) -> Option<Op<P>> {
         }
         ("clear", 2) => m(MapOp::Clear),
         ("collect", 3) => m(MapOp::Collect(p_collect_list(t[2])?)),
+        ("fromlist", 3) => m(MapOp::FromList(p_pair_list(t[2])?)),
         ("clone", 2) => m(MapOp::Clone),
         ("save", 2) => m(MapOp::Save),
         ("eq", 2) => m(MapOp::Eq),
@@ -715,6 +731,7 @@ fn parse_op<P: Prefix>(t: &[&str]) -> Option<Op<P>> {
         }
         ("seq", 1) => Some(Op::SEq),
         ("sobs", 1) => Some(Op::SObs),
+        ("sfromlist", 2) => Some(Op::SFromList(if t[1] == "-" { Vec::new() } else { t[1].split(',').map(p_prefix).collect::<Option<Vec<P>>>()? })),
         ("sshape", 1) => Some(Op::SShape),
         ("sviewat", 2) => Some(Op::SViewAt(p_prefix(t[1])?)),
         ("sq", 2) => Some(Op::SQ(p_prefix(t[1])?)),
@@ -897,6 +914,18 @@ fn exec<P: PT>(st: &mut State<P>, op: &Op<P>, o: &mut String, cap: usize) {
             let y = st.t2 == st.t;
             sep(o);
             w_b(o, y);
+        }
+        Op::SFromList(items) => {
+            let built: PrefixSet<P> = items.iter().cloned().collect();
+            let mut by_insert: PrefixSet<P> = PrefixSet::new();
+            for p in items.iter() {
+                by_insert.insert(p.clone());
+            }
+            if built != by_insert || built.len() != by_insert.len() {
+                panic!("set from_iter differs from inserting the items one by one");
+            }
+            st.t = built;
+            ok(o);
         }
         Op::SShape => {
             let v = (&st.t).view();
@@ -1231,6 +1260,20 @@ fn map_op<P: PT, T: Val>(
                 perm.push(slots[pos].take().unwrap());
             }
             *m = perm.into_iter().collect();
+            ok(o);
+        }
+        MapOp::FromList(items) => {
+            // `FromIterator` / `collect()` from a list that may repeat keys (later items win) — and
+            // `Extend`-style re-insertion must agree with it (self-consistency)
+            let built: PrefixMap<P, T> = items.iter().map(|(p, v)| (p.clone(), T::new(*v))).collect();
+            let mut by_insert: PrefixMap<P, T> = PrefixMap::new();
+            for (p, v) in items.iter() {
+                by_insert.insert(p.clone(), T::new(*v));
+            }
+            if built != by_insert || built.len() != by_insert.len() {
+                panic!("from_iter differs from inserting the items one by one");
+            }
+            *m = built;
             ok(o);
         }
         MapOp::Clone => {
@@ -2016,6 +2059,10 @@ fn query<P: PT, T: Val>(m: &PrefixMap<P, T>, p: &P, o: &mut String, cap: usize) 
     let x = coll(m.children(p), cap);
     key(o, "ch=");
     w_pairs(o, x);
+    // into_children has its own entry point (start search + owning iterator)
+    let x = coll(m.clone().into_children(p), cap);
+    key(o, "ich=");
+    w_list(o, x, |o, (p, v)| w_pair(o, &p, v.get()));
 
     match m.view_at(p.clone()) {
         None => {
